@@ -107,7 +107,7 @@ type PartyOpts struct {
 	NoErrH     bool // leave the error-message handler unset
 	NoHandlers bool
 	ShortKeys  int  // this many of the party's first D-H exponents are ones whose public value has a zero top byte
-	ShortFrom  int  // index into ShortExps to start from (parties of one world use different ones)
+	ShortFrom  int  // which half of ShortExps this party uses (0 or 1; the parties of one world use different halves)
 	SysRand    bool // leave Conversation.Rand unset: the library then uses the operating system's generator
 }
 
@@ -115,7 +115,7 @@ type PartyOpts struct {
 func NewParty(o PartyOpts) *Party {
 	p := &Party{Name: o.Name, R: NewRand(o.Seed), Pol: o.Pol, KeyI: o.KeyI}
 	for i := 0; i < o.ShortKeys; i++ {
-		p.R.Force40 = append(p.R.Force40, ShortExps[(o.ShortFrom+i)%len(ShortExps)])
+		p.R.ArmShort(o.ShortFrom)
 	}
 	c := &otr3.Conversation{}
 	if !o.SysRand {
